@@ -209,8 +209,42 @@ func init() {
 			fmt.Printf("%s:", g.Name())
 			for k, v := range st.obj(o).Fields {
 				fmt.Printf(" %d=%s", k, v.String())
+				if v.Kind == avPtr && st.obj(v.Obj).IsMap {
+					m := st.obj(v.Obj)
+					fmt.Printf(" map(opaque=%v){", m.Opaque)
+					for id, e := range m.Map {
+						fmt.Printf(" %s->%s", id, e.String())
+						if e.Kind == avStruct && e.Obj != nil {
+							fmt.Printf("%v", st.obj(e.Obj).Fields)
+						}
+					}
+					fmt.Printf(" }")
+				}
 			}
 			fmt.Println()
+		}
+	}
+	debugHooks["axtable"] = func(w *World) {
+		w.Census()
+		ab, br, err := w.axisBuildsAI()
+		if err != nil {
+			fmt.Println(err)
+			return
+		}
+		fmt.Println("axes:", br.Axes)
+		var keys []string
+		for k := range ab {
+			keys = append(keys, k)
+		}
+		sort.Strings(keys)
+		for _, k := range keys {
+			for _, o := range ab[k] {
+				at := ""
+				if o.At != nil {
+					at = w.instrPos(o.At) + " " + o.At.String()
+				}
+				fmt.Printf("%s: acc=%v rej=%v unk=%v nilnil=%v %s  [%s] ret=%s\n", k, o.Accepted, o.Rejected, o.Unknown, o.NilNil, w.describeResult(o), at, o.Result.String())
+			}
 		}
 	}
 	debugHooks["scan"] = func(w *World) {
